@@ -308,6 +308,8 @@ impl BuildJob<'_> {
         {
             let mut building = sf.clone();
             building.is_generated = true;
+            // (an override whose file the user has removed is over)
+            building.is_override = false;
             building.stamp = None;
             building.save(&mut ptx)?;
         }
